@@ -91,8 +91,49 @@ def build(spec, built=None, parent=None, slot=('root',)):
         raise HarnessError('bad spec %r' % (spec,))
     if built is None:
         b.root = node
+        layout(b.root)
         return b
     return node
+
+
+def layout(root) -> None:
+    """Give the nodes the marks a block-style text would give them, so that
+    relations between positions (a mapping starts where its first key starts,
+    a scalar value sits on its key's line, a collection value starts on the
+    next line) are the same under symbolic execution and at replay."""
+    from vlib.common import mk
+    line = [0]
+
+    def put(node, ln, col):
+        node.start_mark = node.end_mark = mk(ln, col)
+
+    def visit(node, ln, col):
+        """Lay the node out starting at (ln, col); returns the next free
+        line."""
+        put(node, ln, col)
+        if isinstance(node, yaml.ScalarNode):
+            return ln + 1
+        if not node.value:
+            return ln + 1                   # [] or {} on the key's line
+        cur = ln
+        if isinstance(node, yaml.SequenceNode):
+            for it in node.value:
+                cur = visit(it, cur, col + 2)
+            return cur
+        for k, v in node.value:
+            if isinstance(k, yaml.ScalarNode):
+                put(k, cur, col)
+            else:
+                visit(k, cur, col + 2)      # complex key
+            if isinstance(v, yaml.ScalarNode) or not v.value:
+                put(v, cur, col + 4)
+                cur += 1
+            elif isinstance(v, yaml.SequenceNode):
+                cur = visit(v, cur + 1, col)
+            else:
+                cur = visit(v, cur + 1, col + 2)
+        return cur
+    visit(root, 0, 0)
 
 
 def place(b: Built, idx: int, new) -> None:
